@@ -869,6 +869,7 @@ func (p *Prog) regexSameInputs(out *RuleOut, flagsT *types.Named) {
 	}
 	// the compiler: every MustCompile argument is built from loads of the same two fields
 	compiles := 0
+	srcProblem := ""
 	for _, cf := range moduleFuncs(p.reachFrom([]*ssa.Function{comp}).Set) {
 		if fnPkgPath(cf) != pkgAST {
 			continue
@@ -877,9 +878,16 @@ func (p *Prog) regexSameInputs(out *RuleOut, flagsT *types.Named) {
 			for _, ins := range b.Instrs {
 				if c, ok := ins.(*ssa.Call); ok && calleeQualified(&c.Call) == "regexp.MustCompile" {
 					compiles++
+					if w := compiledSourceLeaves(c.Call.Args[0], 0); w != "" {
+						srcProblem = "the compiled source at " + p.pos(c.Pos()) + " contains " + w + ": it is not the validated pattern (as it is, or through regexp.QuoteMeta) behind the flag prefix, so what syntax.Parse accepted is not what MustCompile receives"
+					}
 				}
 			}
 		}
+	}
+	if srcProblem != "" {
+		out.viol(key, p.pos(comp.Pos()), fnName(comp), srcProblem)
+		return
 	}
 	if good && validated && compiles > 0 {
 		out.ok(key, p.pos(ctor.Pos()), fnName(ctor), "NewRegex hands regexp/syntax.Parse the very pattern and flags it stores in the node")
@@ -1102,3 +1110,50 @@ var ruleStrPred = &Rule{
 }
 
 func init() { register(ruleStrPred) }
+
+// compiledSourceLeaves: "" if v is a concatenation whose leaves are the
+// node's pattern field, regexp.QuoteMeta of it, or the result of a method of
+// the flags value (the inline flag prefix); otherwise the offending leaf.
+func compiledSourceLeaves(v ssa.Value, depth int) string {
+	if depth > 8 {
+		return "an expression too deep to follow"
+	}
+	switch x := v.(type) {
+	case *ssa.BinOp:
+		if x.Op == token.ADD {
+			if w := compiledSourceLeaves(x.X, depth+1); w != "" {
+				return w
+			}
+			return compiledSourceLeaves(x.Y, depth+1)
+		}
+	case *ssa.Phi:
+		for _, e := range x.Edges {
+			if w := compiledSourceLeaves(e, depth+1); w != "" {
+				return w
+			}
+		}
+		return ""
+	case *ssa.UnOp:
+		if x.Op == token.MUL {
+			if fa, ok := x.X.(*ssa.FieldAddr); ok && types.Identical(x.Type(), types.Typ[types.String]) {
+				_ = fa
+				return "" // the stored pattern
+			}
+		}
+	case *ssa.Call:
+		q := calleeQualified(&x.Call)
+		if q == "regexp.QuoteMeta" && len(x.Call.Args) == 1 {
+			return compiledSourceLeaves(x.Call.Args[0], depth+1)
+		}
+		if sc := x.Call.StaticCallee(); sc != nil && fnPkgPath(sc) == pkgAST && types.Identical(x.Type(), types.Typ[types.String]) {
+			return "" // flag prefix computed from the stored flags
+		}
+		return "the result of " + q
+	case *ssa.Const:
+		if x.Value != nil && x.Value.Kind() == constant.String && constant.StringVal(x.Value) == "" {
+			return ""
+		}
+		return "the constant " + trunc(x.String(), 30)
+	}
+	return trunc(v.String(), 40)
+}
